@@ -226,6 +226,8 @@ class ExcV(V):
         self.site = site
         self.what = what
         self.chain = tuple(chain)
+        self.expr = ""
+        self.func = site.rsplit(":", 1)[0] if site else ""
 
     def key(self):
         return ("exc", self.cls.__module__ + "." + self.cls.__qualname__, self.site)
